@@ -75,6 +75,7 @@ def check_binop(item):
     out = {"op": op, "bits": bits, "rbits": rbits, "paths": 0, "unsat": 0, "findings": [], "undecided": [], "solver_s": 0.0, "fn": fn, "hash": prog.func(fn).text_hash,
            "calls": set(), "div_mode": it.div_mode}
     expected = None
+    tie = None
     if bits == rbits:
         if op in ("divu", "modu", "divs", "mods") and it.div_mode == "uf":
             f = M.uf(it, {"divu": "udiv", "modu": "urem", "divs": "sdiv", "mods": "srem"}[op])
@@ -84,7 +85,7 @@ def check_binop(item):
             # tie the uninterpreted function to real division for the reference's own operands, so that code
             # which divides natively is compared with the real quotient (possibly undecided), never with a free symbol
             real = {"divu": z3.UDiv(xa, xb), "modu": z3.URem(xa, xb), "divs": xa / xb, "mods": z3.SRem(xa, xb)}[op]
-            inv = z3.And(inv, z3.Implies(xb != 0, f(xa, xb) == real))
+            tie = z3.Implies(xb != 0, f(xa, xb) == real)
         else:
             expected = ilsem.z3_binop(op, a, b)
     classes = shift_classes(bits, b) if op in ("shl", "shr", "ashr") and bits == rbits else {"any": z3.BoolVal(True)}
@@ -144,6 +145,9 @@ def check_binop(item):
             wrong = z3.Or(got != z3.ZeroExt(W - expected.size(), expected), gbits != z3.BitVecVal(expected.size(), 64))
             extra = [b != 0] if op in ("divu", "modu", "divs", "mods") else []
             v, m, dt = solve.check(pc + [cpred, wrong] + extra, 60000); out["solver_s"] += dt
+            if v != solve.UNSAT and tie is not None:
+                # only now bring in the real divider (needed when the code divides natively)
+                v, m, dt = solve.check(pc + [cpred, wrong, tie] + extra, 120000); out["solver_s"] += dt
             if v == solve.UNSAT:
                 out["unsat"] += 1
             elif v == solve.UNDECIDED:
@@ -289,7 +293,7 @@ def check_eval(item):
             xa, xb = ext(W - bits, a), ext(W - bits, b)
             exp = z3.Extract(bits - 1, 0, f(xa, xb))
             real = {"divu": z3.UDiv(xa, xb), "modu": z3.URem(xa, xb), "divs": xa / xb, "mods": z3.SRem(xa, xb)}[opn]
-            pc = pc + [z3.Implies(xb != 0, f(xa, xb) == real)]
+            tie_e = z3.Implies(xb != 0, f(xa, xb) == real)
         else:
             exp = ilsem.z3_binop(opn, a, b)
         if exp is None:
@@ -298,6 +302,8 @@ def check_eval(item):
         if opn == "ashr":
             extra.append(z3.ULE(b, bits))      # Constant::ashr's own deviation is reported by its obligations
         v, m, dt = solve.check(pc + extra + [got != z3.ZeroExt(W - exp.size(), exp)], 60000); out["solver_s"] += dt
+        if v != solve.UNSAT and opn in ("divu", "modu", "divs", "mods") and it.div_mode == "uf":
+            v, m, dt = solve.check(pc + extra + [tie_e, got != z3.ZeroExt(W - exp.size(), exp)], 120000); out["solver_s"] += dt
         if v == solve.UNSAT: out["unsat"] += 1
         elif v == solve.UNDECIDED: out["undecided"].append("value query")
         else:
